@@ -433,6 +433,16 @@ def withSibling (n1 : String) (c1 : Call) (n2 : String) (c2 : Call) (edits2 edit
   let out := if y.isSelf then y2 else o1
   exitBlock n1 c1 y.recorded y.isSelf y2 out
 
+/-- the original is a TEMPORARY (`with make_td().<name>(<call>) as y:`): the record made by `_as_context_manager` holds only a weak
+reference to it.  When the method returned a new object the original is gone at exit (`out_wr()` is `None`): after the fix in
+base.py:__exit__ there is nothing to write back to and the exit just returns.  When the method returned the original itself (a no-op
+squeeze, a transpose of a dim with itself, `lock_`…) the yielded object keeps it alive and the ordinary exit runs.  The result is the
+state of the YIELDED object after the block. -/
+def withTempBlock (name : String) (c : Call) (edits : List Edit) (orig : St) : Except Err St := do
+  let y ← fwd name c orig
+  let y' ← applyEdits y.st edits
+  if y.isSelf then exitBlock name c y.recorded y.isSelf y' y' else pure y'
+
 /-! ### bindings: which tensor (storage) every leaf path names
 
 The metadata state above cannot tell `update(…, inplace=False)` (the original's entries are REBOUND to the tensors of the inverse image)
